@@ -1,20 +1,22 @@
 """C13 - push constant range covers the variable, from offset 0, once.
 
-Decided on the output grammar with provenance (Engine A), anchored on the `wgpu::PushConstantRange {` template:
+Decided on the output grammar with provenance (Engine A), on the summary of the top-level function (the function that holds the
+`push_constant_ranges: &[..]` hole), where every helper - free function, closure or method of a helper struct - is inlined, so the rule
+does not depend on how the work is split:
   * the range is `wgpu::PushConstantRange { stages: PUSH_CONSTANT_STAGES, range: 0..<n> }`: literal start 0, the stages refer to
     the exported constant by name;
-  * <n> is the size of the type of the selected global, unmodified (TypeInner::size(module.to_ctx()), or the layouter's size of
+  * <n> is the size of the type of the selected global, unmodified (TypeInner::size(module.to_ctx()), or the layouter's `.size` of
     that type handle) - no rounding to an alignment or stride;
   * the selected global is found among module.global_variables by `space == PushConstant` only;
   * the stage set is quote_shader_stages(map.get(name of that same global), falling back to the entry-stage set) - exactly the map
     entry when the variable is used (no union with anything), else the stages that have an entry point;
-  * iff: range and `pub const PUSH_CONSTANT_STAGES` are the two halves of one Option (same presence condition), the descriptor has a
-    single optional range hole (at most one range), the stage map is the one computed by the stage walk (C03) and the fallback is
-    the union of naga stage -> wgpu stage over all entry points.
+  * iff: the range hole and the `pub const PUSH_CONSTANT_STAGES` item are present under one and the same condition, and that condition is
+    (truth table over its single atom) "some global variable has space PushConstant"; the descriptor has a single optional range hole
+    (at most one range); the stage map is the one computed by the stage walk (C03) and the fallback is the union of naga stage ->
+    wgpu stage over all entry points.
 Not decided: that the size is a multiple of 4 (a fact about WGSL types and naga's layout, trusted)."""
 import engine_ogp as E
 from conc import Eval, V, Diverge, Unbound
-from rules.c02 import hole_after
 from rules.c03 import stages_argument
 from rules.c04 import hole_after_seq
 
@@ -27,124 +29,133 @@ def run(rep):
     rep.trusted = ['syn parser and the abstract semantics of Engine A', 'naga TypeInner::size / Layouter give the WGSL byte size (multiple of 4 for push-constant types)',
                    'C03 rules: the stage map holds exactly the using stages']
     crate = ogp.crate
-    hits = []
+    # the top-level function: holds the pipeline-layout template; the smallest such function (the public wrappers inline it)
+    tops = []
     for q, v in ogp.summaries.items():
-        for t in E.find_templates(v, lambda t: 'wgpu :: PushConstantRange {' in E.tmpl_text(t)):
-            if t[3] == q:
-                hits.append((q, t))
-    rep.floor('push constant range template', len(hits), 1)
-    if not hits:
-        return
-    q, rt = hits[0]
-    f = crate.fns[q]
-    where = f"{crate.relfile(f['file'])} fn {f['name']} (template at {rt[1]})"
-    summ = ogp.summaries[q]
-    params = {('module' if p['ty'].replace(' ', '').endswith('Module') else 'map' if 'Map<' in p['ty'].replace(' ', '') else 'stages' if 'ShaderStages' in p['ty'] else p['pat']['name']):
-              ('param', q, p['pat']['name']) for p in f['params']}
-    modP, mapP, fbP = params.get('module'), params.get('map'), params.get('stages')
-    txt = E.tmpl_text(rt)
-    hs = list(E.holes(rt).items())
-    from tokrules import find_struct_expr
-    pr = find_struct_expr(txt, 'wgpu :: PushConstantRange')
-    shape_ok = len(hs) == 1 and pr is not None and pr[1] is not None and set(pr[1]) == {'stages', 'range'} and pr[1]['stages'] == ('PUSH_CONSTANT_STAGES', None) and \
-        pr[1]['range'] == ('0..#' + hs[0][0], None)
-    rep.check(shape_ok, 'C13.range-shape', 'range-shape', where,
-              f'the range is `{txt}`; expected `wgpu::PushConstantRange {{ stages: PUSH_CONSTANT_STAGES, range: 0..#size }}` (start literal 0, stages by the exported constant)',
-              ok_detail=txt)
-    if len(hs) != 1 or modP is None:
-        return
-    size = hs[0][1]
-    # the selected global
-    founds = []
-    E.walk(summ, lambda x: founds.append(x) if x[0] == 'found' else None)
-    sel_ok = False
-    G = None
-    if founds:
-        fs = founds[0][1]
-        el = ('elem', fs[2], fs[1])
-        want_c = ('eq', ('f', ('tf', el, 1), 'space'), ('path', 'naga::AddressSpace::PushConstant'))
-        sel_ok = fs[1] == ('f', modP, 'global_variables') and fs[4] == [want_c] and all(x[1] == fs for x in founds)
-        G = ('tf', founds[0], 1)
-    rep.check(sel_ok, 'C13.selection', 'selected-global', where,
-              f'the push-constant variable is not selected from module.global_variables by `space == PushConstant` alone ({E.show(founds[0], maxdepth=6) if founds else None})',
-              ok_detail='module.global_variables.find(space == PushConstant)')
-    if G is None:
-        return
-    tyh = ('f', G, 'ty')
-    want1 = ('call', 'Literal::usize_unsuffixed', [('cast', ('mcall', ('f', ('idx', ('f', modP, 'types'), tyh), 'inner'), 'size', [('mcall', modP, 'to_ctx', [])]), 'usize')])
-    ok1 = size == want1 or (size[0] == 'call' and size[1].startswith('Literal::') and strip_cast(size[2][0]) == want1[2][0][1])
-    ok2 = size[0] == 'call' and size[1].startswith('Literal::') and strip_cast(size[2][0])[0] == 'f' and strip_cast(size[2][0])[2] == 'size' and \
-        strip_cast(size[2][0])[1][0] == 'idx' and strip_cast(size[2][0])[1][2] == tyh and 'Layouter' in E.show(strip_cast(size[2][0])[1][1], maxdepth=4)
-    rep.check(ok1 or ok2, 'C13.size', 'range-size', where,
-              f'the range length is {E.show(size, maxdepth=8)}; expected the byte size of the type of the selected variable, unmodified (TypeInner::size(ctx) or Layouter[ty].size)',
-              ok_detail='0..size_of(type of the push-constant variable)')
-    # ---- stage set -------------------------------------------------------------------------------------------------------------------
-    # the second component returned by the function
-    # the Some(..) returned by the function: a pair / two-field struct holding the range and the stage expression (or the constant built from it)
-    ret = None
-    if summ[0] == 'alt':
-        for c, v in summ[1]:
-            if v[0] == 'opt' and components(v[2]) is not None:
-                ret = v
-    if ret is None:
-        rep.bad('C13.iff', 'two-halves', where, 'the range and the stage expression are not produced together as one Option<(range, stages)>', undecided=True)
-        return
-    comps = components(ret[2])
-    rng_c = [x for x in comps if E.find_templates(x, lambda t: t is rt)]
-    oth_c = [x for x in comps if not E.find_templates(x, lambda t: t is rt)]
-    rep.check(ret[1] == TRUE and len(rng_c) == 1 and len(oth_c) == 1, 'C13.iff', 'two-halves', where, 'range and stages are not the two halves of one Some((range, stages))',
-              ok_detail='Some((range, stages))')
-    none_arms = [(c, v) for c, v in summ[1] if v[0] == 'propagate']
-    rep.check(len(none_arms) == 1 and len(summ[1]) == 2, 'C13.iff', 'none-iff-absent', where, 'None is not returned exactly when no push-constant variable exists', ok_detail='None iff no push-constant variable')
-    if len(oth_c) != 1:
-        return
-    stages = oth_c[0]
-    if stages[0] == 'tmpl' and 'pub const PUSH_CONSTANT_STAGES : wgpu :: ShaderStages = #' in E.tmpl_text(stages) and len(E.holes(stages)) == 1:
-        stages = list(E.holes(stages).values())[0]      # the constant is built next to the range
-    arg = stages_argument(stages)
-    nameT = ('f', G, 'name')
-    getT = ('mcall', mapP, 'get', [('unwrap', nameT)])
-    want_arg = ('alt', [(('and', [('t', ('is_some', nameT)), ('t', ('is_some', getT))]), ('unwrap', getT)), (TRUE, fbP)])
-    rep.check(arg is not None and E.decision_list(arg) == E.decision_list(want_arg), 'C13.stages', 'stage-lookup', where,
-              f'the stage set is {E.show(arg, maxdepth=8) if arg else None}; expected exactly `global_stages.get(name of the push-constant variable)` with fallback `entry_stages` '
-              f'(when the variable is used the set must be the map entry itself, no stage may be added)', ok_detail='stages = map.get(variable name) else entry stages')
-    # ---- top-level wiring ------------------------------------------------------------------------------------------------------------
-    tops = [tq for tq in ogp.summaries if any(c[0] == tq and c[1] == q for c in ogp.it.inline_calls)]
+        if v is None:
+            continue
+        pl = E.find_templates(v, lambda t: t[3] == q and 'push_constant_ranges : & [' in E.tmpl_text(t))
+        if pl:
+            tops.append((q, pl[0]))
     rep.floor('top-level function using the push constant range', len(tops), 1)
-    for tq in tops:
+    if not tops:
+        return
+    import engine_skel as K
+    from conc import Flags
+    from tokrules import find_struct_expr
+    for tq, plt in tops:
         tf_ = crate.fns[tq]
         tw = f"{crate.relfile(tf_['file'])} fn {tf_['name']}"
         top = ogp.summaries[tq]
-        pl = E.find_templates(top, lambda t: 'push_constant_ranges : & [' in E.tmpl_text(t))
-        cs = E.find_templates(top, lambda t: 'pub const PUSH_CONSTANT_STAGES : wgpu :: ShaderStages = #' in E.tmpl_text(t))
-        rep.check(len(pl) == 1 and len(cs) == 1, 'C13.wiring', f'templates:{tq}', tw, f'{len(pl)} pipeline-layout / {len(cs)} PUSH_CONSTANT_STAGES templates', ok_detail='one each')
-        if len(pl) != 1 or len(cs) != 1:
-            continue
-        ptxt = E.tmpl_text(pl[0])
-        rng = hole_after_seq(pl[0], 'push_constant_ranges : & [')
+        ptxt = E.tmpl_text(plt)
+        rng = hole_after_seq(plt, 'push_constant_ranges : & [')
         rep.check(rng is not None and 'push_constant_ranges : & [ #' in ptxt and '] , } )' in ptxt.split('push_constant_ranges : & [ #')[1][:40], 'C13.at-most-one', f'single-range:{tq}', tw,
                   'push_constant_ranges is not a single optional range', ok_detail='&[<optional range>]')
-        # where is the const?  an Option-valued hole of the output
+        rts = E.find_templates(rng, lambda t: 'wgpu :: PushConstantRange {' in E.tmpl_text(t)) if rng is not None else []
+        rep.check(rng is not None and rng[0] == 'opt' and len(rts) == 1, 'C13.wiring', f'templates:{tq}', tw,
+                  f'the range hole is {E.show(rng, maxdepth=4) if rng else None}; expected an Option holding one `wgpu::PushConstantRange {{..}}` template', ok_detail='one optional range template')
+        if rng is None or rng[0] != 'opt' or len(rts) != 1:
+            continue
+        rt = rts[0]
+        rf = crate.fns.get(rt[3])
+        where = f"{crate.relfile(rf['file'])} fn {rf['name']} (template at {rt[1]})" if rf else tw
+        # ---- range shape ---------------------------------------------------------------------------------------------------------
+        txt = E.tmpl_text(rt)
+        hs = list(E.holes(rt).items())
+        pr = find_struct_expr(txt, 'wgpu :: PushConstantRange')
+        shape_ok = len(hs) == 1 and pr is not None and pr[1] is not None and set(pr[1]) == {'stages', 'range'} and pr[1]['stages'] == ('PUSH_CONSTANT_STAGES', None) and \
+            pr[1]['range'] == ('0..#' + hs[0][0], None)
+        rep.check(shape_ok, 'C13.range-shape', 'range-shape', where,
+                  f'the range is `{txt}`; expected `wgpu::PushConstantRange {{ stages: PUSH_CONSTANT_STAGES, range: 0..#size }}` (start literal 0, stages by the exported constant)',
+                  ok_detail=txt)
+        if len(hs) != 1:
+            rep.bad('C13.size', 'range-size', where, 'cannot identify the length of the range', undecided=True)
+            continue
+        size = hs[0][1]
+        # ---- the selected global -------------------------------------------------------------------------------------------------
+        founds = []
+        E.walk(size, lambda x: founds.append(x) if x[0] == 'found' and not any(x == y for y in founds) else None)
+        sel_ok, G, modT = False, None, None
+        if len(founds) == 1:
+            fs = founds[0][1]
+            el = ('elem', fs[2], fs[1])
+            want_c = ('eq', ('f', ('tf', el, 1), 'space'), ('path', 'naga::AddressSpace::PushConstant'))
+            if fs[1][0] == 'f' and fs[1][2] == 'global_variables':
+                modT = fs[1][1]
+                sel_ok = fs[4] == [want_c] and fs[3] == el and not fs[5]
+                G = ('tf', founds[0], 1)
+        rep.check(sel_ok, 'C13.selection', 'selected-global', where,
+                  f'the push-constant variable is not selected from module.global_variables by `space == PushConstant` alone ({E.show(founds[0], maxdepth=6) if founds else E.show(size, maxdepth=6)})',
+                  ok_detail='module.global_variables.find(space == PushConstant)')
+        if G is None:
+            for r_ in ('C13.size', 'C13.stages', 'C13.iff', 'C13.fallback'):
+                rep.bad(r_, 'selected-global', where, 'cannot identify the selected push-constant variable, so this clause is not established', undecided=True)
+            continue
+        tyh = ('f', G, 'ty')
+        inner = strip_cast(size[2][0]) if size[0] == 'call' and size[1].startswith('Literal::') and size[1].endswith('unsuffixed') and size[2] else None
+        ok1 = inner == ('mcall', ('f', ('idx', ('f', modT, 'types'), tyh), 'inner'), 'size', [('mcall', modT, 'to_ctx', [])])
+        ok2 = inner is not None and inner[0] == 'f' and inner[2] == 'size' and inner[1][0] == 'idx' and inner[1][2] == tyh and 'Layouter' in E.show(inner[1][1], maxdepth=4)
+        rep.check(ok1 or ok2, 'C13.size', 'range-size', where,
+                  f'the range length is {E.show(size, maxdepth=8)}; expected the byte size of the type of the selected variable, unmodified (TypeInner::size(ctx) or Layouter[ty].size), '
+                  f'printed as an unsuffixed literal', ok_detail='0..size_of(type of the push-constant variable)')
+        # ---- iff -----------------------------------------------------------------------------------------------------------------
+        cs = E.find_templates(top, lambda t: 'pub const PUSH_CONSTANT_STAGES : wgpu :: ShaderStages = #' in E.tmpl_text(t))
+        rep.check(len(cs) == 1, 'C13.wiring', f'stages-constant:{tq}', tw, f'{len(cs)} PUSH_CONSTANT_STAGES templates', ok_detail='one')
+        if len(cs) != 1:
+            rep.bad('C13.iff', f'const-iff-range:{tq}', tw, 'cannot find the PUSH_CONSTANT_STAGES item', undecided=True)
+            rep.bad('C13.stages', 'stage-lookup', tw, 'cannot find the PUSH_CONSTANT_STAGES item', undecided=True)
+            continue
         const_holder = []
         E.walk(top, lambda x: const_holder.append(x) if x[0] == 'opt' and E.find_templates(x[2], lambda t: t is cs[0]) else None)
-        # the innermost Option holding the constant
-        const_holder = [x for x in const_holder if not any(y is not x and E.find_templates(x[2], lambda t: t is cs[0]) and contains(x[2], y) for y in const_holder)]
-        okw = rng is not None and rng[0] == 'opt' and E.find_templates(rng[2], lambda t: 'wgpu :: PushConstantRange {' in E.tmpl_text(t)) and len(const_holder) == 1 and const_holder[0][1] == rng[1]
+        const_holder = [x for x in const_holder if not any(y is not x and contains(x[2], y) for y in const_holder)]     # the innermost Option holding the constant
+        okw = len(const_holder) == 1 and const_holder[0][1] == rng[1]
         rep.check(bool(okw), 'C13.iff', f'const-iff-range:{tq}', tw,
                   'the PUSH_CONSTANT_STAGES constant and the range are not present under the same condition', ok_detail='both present iff a push-constant variable exists')
+        # the presence condition is "some global has space PushConstant": truth table over that atom
+        fs = founds[0][1]
+        anys = []
+        E.walk(rng[1], lambda x: anys.append(x) if x[0] == 'any' and x[1][0] == 'star' and x[1][1] == fs[1] and not any(x == y for y in anys) else None)
+        ok_atom = False
+        if len(anys) == 1:
+            a = anys[0]
+            el0 = ('elem', a[1][2], a[1][1])
+            want_a = ('eq', ('f', ('tf', el0, 1), 'space'), ('path', 'naga::AddressSpace::PushConstant'))
+            ok_atom = (a[2] == want_a and not a[1][4]) or (a[2] == TRUE and a[1][4] == [want_a])
+        rows_ok = ok_atom
+        if ok_atom:
+            for val in (False, True):
+                def leaf(t, val=val):
+                    if t == ('t', anys[0]) or t == anys[0]:
+                        return (val,)
+                    return None
+                try:
+                    got = Eval(leaf, lenient=False).truth(rng[1])
+                except (Unbound, Diverge):
+                    got = None
+                rows_ok = rows_ok and got == val
+        rep.check(rows_ok, 'C13.iff', 'none-iff-absent', tw,
+                  f'the range is not present exactly when some module-scope variable has address space PushConstant (condition {E.show(rng[1], maxdepth=6)})', ok_detail='present iff a push-constant variable exists')
+        # ---- stage set -------------------------------------------------------------------------------------------------------------
         cst = list(E.holes(cs[0]).values())[0]
-        arg2 = stages_argument(cst)
+        arg = stages_argument(cst)
+        nameT = ('f', G, 'name')
         gets = []
-        if arg2 is not None:
-            E.walk(arg2, lambda x: gets.append(x) if x[0] == 'mcall' and x[2] == 'get' else None)
-        ok_map = bool(gets) and all(g[1][0] == 'new' and g[1][1] in ('BTreeMap', 'HashMap') and g[1][3] == () for g in gets)
-        rep.check(ok_map, 'C13.wiring', f'stage-map:{tq}', tw, 'the stage map consulted for the push constant is not the map computed by the stage walk', ok_detail='consults the walker\'s map')
-        # fallback = union over all entry points of the stage table
-        fb = arg2[1][-1][1] if arg2 is not None and arg2[0] == 'alt' else None
-        # evaluated on model entry-point lists: the fallback must be the union of naga stage -> wgpu stage over all entry points
-        import engine_skel as K
-        from conc import Flags
-        modT = None
+        if arg is not None:
+            E.walk(arg, lambda x: gets.append(x) if x[0] == 'mcall' and x[2] == 'get' and not any(x == g for g in gets) else None)
+        ok_map = len(gets) == 1 and gets[0][1][0] == 'new' and gets[0][1][1] in ('BTreeMap', 'HashMap') and gets[0][1][3] == () and gets[0][3] == [('unwrap', nameT)]
+        rep.check(ok_map, 'C13.wiring', f'stage-map:{tq}', tw, 'the stage map consulted for the push constant is not the map computed by the stage walk, looked up under the name of the selected variable',
+                  ok_detail='consults the walker\'s map under the variable\'s name')
+        dl = E.decision_list(arg) if arg is not None else []
+        fb = dl[-1][1] if dl and not dl[-1][0] else None
+        ok_lookup = False
+        if ok_map and fb is not None:
+            getT = gets[0]
+            want_arg = ('alt', [(('and', [('t', ('is_some', nameT)), ('t', ('is_some', getT))]), ('unwrap', getT)), (TRUE, fb)])
+            ok_lookup = dl == E.decision_list(want_arg)
+        rep.check(ok_lookup, 'C13.stages', 'stage-lookup', tw,
+                  f'the stage set is {E.show(arg, maxdepth=8) if arg else None}; expected exactly `global_stages.get(name of the push-constant variable)` with fallback `entry_stages` '
+                  f'(when the variable is used the set must be the map entry itself, no stage may be added)', ok_detail='stages = map.get(variable name) else entry stages')
+        # fallback = union over all entry points of the stage table: evaluated on model entry-point lists
         eps_terms = []
         if fb is not None:
             E.walk(fb, lambda x: eps_terms.append(x) if x[0] == 'f' and x[2] == 'entry_points' else None)
@@ -167,23 +178,15 @@ def run(rep):
                 rows_ok = False
                 detail = f'entry stages {stages_list} -> {got}'
         rep.check(rows_ok, 'C13.fallback', f'entry-stages:{tq}', tw,
-                  f'the fallback stage set is not the union of the stages of all entry points ({detail or E.show(fb, maxdepth=5)})', ok_detail='all entry points, stage table Vertex/Fragment/Compute (evaluated on model entry lists)')
-    rep.analysed = {'function': q, 'template': rt[1], 'top_level': tops}
+                  f'the fallback stage set is not the union of the stages of all entry points ({detail or (E.show(fb, maxdepth=5) if fb else None)})',
+                  ok_detail='all entry points, stage table Vertex/Fragment/Compute (evaluated on model entry lists)')
+    rep.analysed = {'top_level': [t[0] for t in tops]}
 
 
 def contains(t, sub):
     hit = []
     E.walk(t, lambda x: hit.append(1) if x is sub else None)
     return bool(hit)
-
-
-def components(v):
-    """the two components of a pair / two-field struct value, or None"""
-    if v[0] == 'tuple' and len(v[1]) == 2:
-        return list(v[1])
-    if v[0] == 'struct' and len(v[2]) == 2:
-        return list(v[2].values())
-    return None
 
 
 def strip_cast(t):
